@@ -609,7 +609,7 @@ func report(prop string, cfg PropConfig, w *World, results []*unitResult, all []
 	sort.Slice(all, func(i, j int) bool { return all[i].Name < all[j].Name })
 	var violations []string
 	var knownLines []string
-	discharged, recoveredPanics := 0, 0
+	discharged, recoveredPanics, knownOpen := 0, 0, 0
 	perBackend := map[string]int{}
 	solverSecs := map[string]float64{}
 	var samples []map[string]interface{}
@@ -644,7 +644,7 @@ func report(prop string, cfg PropConfig, w *World, results []*unitResult, all []
 			discharged++
 		case kf != nil && kf.Region == "":
 			knownLines = append(knownLines, fmt.Sprintf("KNOWN-FINDING: property=%s %s %s", prop, o.Name, kf.What))
-			discharged++ // accounted for: listed finding, see known_findings.json
+			knownOpen++ // a listed finding: neither discharged nor counted among the obligations claimed
 		case o.Context == "recovered":
 			recoveredPanics++
 			discharged++
@@ -701,7 +701,8 @@ func report(prop string, cfg PropConfig, w *World, results []*unitResult, all []
 	}
 	ev := evidence{PropertyID: prop, Tier: *flagTier, Seed: seedEnv(), Level: level, WallS: round3(wall), Violations: len(violations)}
 	ev.Coverage = map[string]interface{}{
-		"obligations":              len(all),
+		"obligations":              len(all) - knownOpen,
+		"known_finding_obligations": knownOpen,
 		"discharged":               discharged,
 		"checker_cmd":              fmt.Sprintf("/verif/bin/gocv -prop %s -tier %s (VC generation over go/ssa of /repo's working tree; back ends z3 4.8.12, z3 5.1.0, cvc5 1.0.3 raced per obligation)", prop, *flagTier),
 		"trusted_base":             tb,
